@@ -19,7 +19,7 @@ from harness import core
 
 PROP = 'C11'
 MODULE = 'Props.C11'
-THEOREMS = ['C11_roundtrip', 'C11_channels_same_snapshot', 'C11_history_snapshot_at_call',
+THEOREMS = ['C11_roundtrip', 'C11_roundtrip_any_history', 'C11_redump_after_foreign_write', 'C11_channels_same_snapshot', 'C11_history_snapshot_at_call',
             'C11_history_same_snapshot', 'C11_view_equals_viewer', 'C11_channels_agree',
             'C11_options_select_and_order', 'C11_option_mappings', 'C11_nonvacuous']
 LEVEL = 'proof'
@@ -27,6 +27,8 @@ DRIVER = 'harness.drivers.c11'
 
 ANSI = re.compile(r'\x1b\[[0-9;]*m')
 FNAMES_ASCII = ['mod_a.py', 'b_mod.py', 'zeta.py', 'Alpha.py', 'm0.py']
+# legal but unusual: characters that mean something to %-formatting, str.format, globbing, shells
+FNAMES_ODD = ['cov_100%_done/m.py', 'a%%b.py', 'pct%s_%d.py', 'br{0}ace{x}.py', 'q[1]*.py', 'sp ace;amp&.py', "quo'te.py"]
 FNAMES_UNI = ['módulo_é.py', 'модуль.py', '模块.py',
               'naïve file.py', 'αβγ.py']
 FUNCS_ASCII = ['f', 'g', 'helper', 'Zed', '_h', 'f2']
@@ -290,6 +292,8 @@ def py_spec(c, o):
     why = []
     if 'error' in o:
         return ['driver error: ' + o['error'][-300:]]
+    if 'history' in o:
+        return py_spec_history(c, o)
     if 'failed' in o:
         return ['subprocess failed rc=%s: %s %s' % (o.get('rc'), o.get('failed', '')[-200:], o.get('stderr', '')[-300:])]
     sj = o['snapshot']
@@ -315,6 +319,8 @@ def py_spec(c, o):
             why.append('explicit profiler wrote files %r for write_config %r%s' % (r, wc, ' under LC_ALL=C PYTHONUTF8=0' if c.get('ascii_locale') else ''))
         elif r.get('atexit_stderr'):
             why.append('explicit profiler: error on stderr while writing its outputs: %s' % r['atexit_stderr'][-200:])
+        if r.get('raised'):
+            why.append('GlobalProfiler.show raised %s' % r['raised'])
         if not wc['stdout'] and not r.get('stdout_silent', True):
             why.append('explicit profiler printed a report although write_config[stdout] is off')
     if c['kind'] == 'kernprof':
@@ -366,13 +372,15 @@ def mk_explicit(bits, sc, prefix='out'):
                 ref_stdout=py_opts_of(c1), ref_text=py_opts_of(c2))
 
 
-def rand_files(rnd, nfiles, unicode_p):
+def rand_files(rnd, nfiles, unicode_p, odd_p=0.25):
     files = []
     fn_pool = rnd.sample(FNAMES_ASCII, len(FNAMES_ASCII))
     un_pool = rnd.sample(FNAMES_UNI, len(FNAMES_UNI))
+    odd_pool = rnd.sample(FNAMES_ODD, len(FNAMES_ODD))
     k = 0
     for i in range(nfiles):
-        fname = un_pool.pop() if rnd.random() < unicode_p else fn_pool.pop()
+        x = rnd.random()
+        fname = odd_pool.pop() if x < odd_p else (un_pool.pop() if x < odd_p + unicode_p else fn_pool.pop())
         names = rnd.sample(FUNCS_ASCII, len(FUNCS_ASCII))
         unames = rnd.sample(FUNCS_UNI, len(FUNCS_UNI))
         funcs = []
@@ -437,7 +445,8 @@ def gen_cases(tier, rnd):
         for j in range(rnd.randint(0, 2)):
             nrows = rnd.randint(0, 3)
             offs = sorted(rnd.sample(range(0, 6), nrows))
-            timings.append(dict(fname='gone_%d_%s' % (j, rnd.choice(['x.py', 'üñî.py'])), func=rnd.choice(FUNCS_ASCII + FUNCS_UNI),
+            timings.append(dict(fname='gone_%d_%s' % (j, rnd.choice(['x.py', 'üñî.py', '100%.py', 'a%%b%s.py'])),
+                                func=rnd.choice(FUNCS_ASCII + FUNCS_UNI + ['<lambda>', 'fn%s', '100%d%%']),
                                 start=rnd.randint(1, 50),
                                 rows=[(off, max(1, rnd.choice(mags)), rnd.choice(mags)) for off in offs]))
         rnd.shuffle(timings)
@@ -490,10 +499,105 @@ def gen_cases(tier, rnd):
         e = mk_explicit(loc_bits[i % len(loc_bits)], sc, prefix='loc%d' % i)
         cases.append(dict(kind='explicit', ascii_locale=True, files=files, calls=calls, explicit=[e],
                           viewer=[mk_viewer(rnd, sub=True, fixed=dict(u=None, z=True, r=False, t=True, m=True))]))
+    # histories of dumps: two profiler objects, two paths, foreign writers, deletions
+    n_hist = 10 if not thorough else 300
+    for i in range(n_hist):
+        files = rand_files(rnd, 2, 0.3, odd_p=0.2)
+        for f in files:
+            for fn in f['funcs']:
+                fn['profiled'] = True
+        regs = [[(0, fn['name']) for fn in files[0]['funcs']], [(1, fn['name']) for fn in files[1]['funcs']]]
+        if rnd.random() < 0.3:          # both profilers watch the same functions
+            regs[1] = list(regs[0])
+
+        def run_step(p):
+            return ['run', p, [(k, nm, rnd.choice([0, 1, 2, 5])) for (k, nm) in regs[p] if rnd.random() < 0.8] or
+                    [(regs[p][0][0], regs[p][0][1], 1)]]
+
+        def foreign(fi, op='foreign'):
+            ents = [dict(fname='elsewhere_%d.py' % j, start=rnd.randint(1, 30), func=rnd.choice(FUNCS_ASCII),
+                         rows=[(40 + r, rnd.randint(1, 50), rnd.randint(0, 10 ** 6)) for r in range(rnd.randint(0, 3))])
+                    for j in range(rnd.randint(0, 2))]
+            return [op, fi, ents, rnd.choice(UNITS_SYN)]
+        core = [
+            [run_step(0), run_step(1), ['dump', 0, 0], ['dump', 1, 0], ['dump', 0, 0], ['load', 0]],
+            [run_step(0), ['dump', 0, 0], foreign(0), ['dump', 0, 0], ['load', 0]],
+            [run_step(0), ['dump', 0, 1], foreign(1, 'replace'), ['dump', 0, 1], ['delete', 1], ['dump', 0, 1]],
+            [run_step(1), ['dump', 1, 0], ['dump', 1, 0], run_step(1), ['dump', 1, 0], ['dump', 0, 0], ['dump', 1, 0]],
+        ]
+        if i < len(core):
+            steps = core[i]
+        else:
+            steps = [run_step(0), run_step(1)]
+            for _ in range(rnd.randint(4, 10)):
+                x = rnd.random()
+                fi = rnd.randint(0, 1)
+                if x < 0.5:
+                    steps.append(['dump', rnd.randint(0, 1), fi])
+                elif x < 0.62:
+                    steps.append(run_step(rnd.randint(0, 1)))
+                elif x < 0.78:
+                    steps.append(foreign(fi, rnd.choice(['foreign', 'replace'])))
+                elif x < 0.86:
+                    steps.append(['delete', fi])
+                else:
+                    steps.append(['load', fi])
+        cases.append(dict(kind='history', files=files, profilers=regs, steps=steps,
+                          paths=[rnd.choice(['shared.lprof', 'out%d.lprof', 'sub dir.lprof']), 'other_\u00e9.lprof']))
     return cases
 
 
 # ----------------------------------------------------------------------------
+def history_snaps(o):
+    res = []
+    for st in o['history']:
+        for k in ('live', 'live_after', 'loaded', 'snap'):
+            if st.get(k) is not None:
+                res.append(st[k])
+    return res
+
+
+def coq_history(o):
+    snaps = history_snaps(o)
+    it = Interner([x for sj in snaps for k, _ in sj['timings'] for x in (k[0], k[2])],
+                  [float.fromhex(sj['unit']) or 1.0 for sj in snaps])
+
+    def osnap(sj):
+        return 'None' if sj is None else '(Some %s)' % snap(sj)
+
+    def snap(sj):
+        if float.fromhex(sj['unit']) == 0:          # unloadable file: a snapshot equal to nothing real
+            return '(Snap [] (FUnit (-7)%Z (0 # 1)%Q))'
+        return it.snapshot(sj)
+    items = []
+    for st in o['history']:
+        if st['op'] == 'dump':
+            items.append('(HDump %s %s %s)' % (core.coq_z(st['file']), snap(st['live']), osnap(st['loaded'])))
+        elif st['op'] == 'foreign':
+            items.append('(HForeign %s %s)' % (core.coq_z(st['file']), snap(st['snap'])))
+        elif st['op'] == 'delete':
+            items.append('(HDelete %s)' % core.coq_z(st['file']))
+        elif st['op'] == 'load':
+            items.append('(HLoad %s %s)' % (core.coq_z(st['file']), osnap(st['loaded'])))
+    return '(hist_ok %s)' % core.coq_list(items)
+
+
+def py_spec_history(c, o):
+    why = []
+    for i, st in enumerate(o['history']):
+        if st['op'] != 'dump':
+            continue
+        if st['err']:
+            why.append('step %d: dump_stats raised %s' % (i, st['err']))
+        if st['live'] != st['live_after']:
+            why.append('harness: snapshot moved during dump_stats (step %d)' % i)
+        if st['loaded'] != st['live']:
+            why.append('step %d: profiler %d dumped to path %d, but the file loads to %s statistics than its live get_stats() '
+                       '(history: %s)' % (i, st['prof'], st['file'], 'no' if st['loaded'] is None else 'other',
+                                         ' '.join('%s%s' % (x[0], x[1] if x[0] != 'run' else '') for x in c['steps'][:i + 1])))
+    return why
+
+
 def case_strings(o):
     ss = []
     for sj in [o['snapshot']] + o['loaded']:
@@ -536,6 +640,11 @@ def attach_obs(o):
 
 def slim(o):
     """an output without the bulky texts, for evidence / replay files"""
+    if 'history' in o:
+        return dict(history=[dict(op=st['op'], file=st.get('file'), prof=st.get('prof'),
+                                  loaded_equals_live=(st['loaded'] == st['live']) if st['op'] == 'dump' else None,
+                                  loaded_is_none=(st.get('loaded') is None) if st['op'] in ('dump', 'load') else None)
+                             for st in o['history']])
     if 'channels' not in o:
         return o
     return dict(snapshot=o['snapshot'], loaded_equal=[l == o['snapshot'] for l in o['loaded']],
@@ -545,7 +654,30 @@ def slim(o):
                 explicit=o.get('explicit'))
 
 
+def count_redumps(c):
+    """dumps by a profiler to a path it dumped to before, with another writer in between and nothing new recorded"""
+    n = 0
+    last = {}       # path -> (last writer, set of profilers that recorded nothing since their own last dump there)
+    clean = {}      # (prof, path) -> True if prof dumped there and has not run since
+    for st in c['steps']:
+        if st[0] == 'run':
+            for k in list(clean):
+                if k[0] == st[1]:
+                    clean[k] = False
+        elif st[0] == 'dump':
+            k = (st[1], st[2])
+            if clean.get(k) and last.get(st[2]) not in (None, st[1]):
+                n += 1
+            clean[k] = True
+            last[st[2]] = st[1]
+        elif st[0] in ('foreign', 'replace'):
+            last[st[1]] = 'foreign'
+    return n
+
+
 def nontrivial(o):
+    if 'history' in o:
+        return sum(1 for st in o['history'] if st['op'] == 'dump') >= 2
     if 'snapshot' not in o:
         return False
     return any(rows for _, rows in o['snapshot']['timings']) and len(o['channels']) >= 2
@@ -575,11 +707,11 @@ def run(tier, seed):
     model_ok = not any('build of' in f for f in res.obl['failures'])
     for o in outs:
         attach_obs(o)
-    usable = [i for i, o in enumerate(outs) if 'snapshot' in o]
+    usable = [i for i, o in enumerate(outs) if 'snapshot' in o or 'history' in o]
     n_obs = 0
     hist = {}
     for i in usable:
-        for ch in outs[i]['channels']:
+        for ch in outs[i].get('channels', []):
             n_obs += 1
             hist[ch['chan']['t']] = hist.get(ch['chan']['t'], 0) + 1
     flagged = set()
@@ -587,7 +719,7 @@ def run(tier, seed):
         bodies, index = [], []
         cur, cur_idx, size = [], [], 0
         for i in usable:
-            row = coq_case(outs[i])
+            row = coq_history(outs[i]) if 'history' in outs[i] else coq_case(outs[i])
             if cur and (size + len(row) > 150000 or len(cur) >= 60):
                 bodies.append(cur)
                 index.append(cur_idx)
@@ -618,7 +750,7 @@ def run(tier, seed):
                 flagged.add(i)
                 why = py_spec(cases[i], outs[i])
                 res.spec_fails.append(dict(case=cases[i], impl=slim(outs[i]),
-                                           why='Coq-side spec (round trip / numbers belong to the snapshot / channels consistent) fails; python view: ' + '; '.join(why[:3]),
+                                           why='Coq-side spec (round trip at every dump / numbers belong to the snapshot / channels consistent) fails; python view: ' + '; '.join(why[:3]),
                                            finding=None))
     for i, (c, o) in enumerate(zip(cases, outs)):
         why = py_spec(c, o)
@@ -642,16 +774,22 @@ def run(tier, seed):
                 s['channels'] = s['channels'][:2]
                 samples.append(dict(kind=kind, impl=s))
                 break
+    for c, o in zip(cases, outs):
+        if c['kind'] == 'history' and 'history' in o:
+            samples.append(dict(kind='history', steps=[[x[0]] + [y for y in x[1:] if isinstance(y, int)] for x in c['steps']], impl=slim(o)))
+            break
     res.coverage = dict(
         evaluations=len(cases), channel_observations=n_obs,
-        distinct_nontrivial=len({json.dumps(o['snapshot'], sort_keys=True) for o in outs if nontrivial(o)}),
+        distinct_nontrivial=len({json.dumps(o.get('snapshot') or o.get('history'), sort_keys=True) for o in outs if nontrivial(o)}),
         rule='a case = one snapshot pushed through all its channels; non-trivial = the snapshot has at least one line with data and '
              'at least two channels rendered it; distinct by snapshot content',
         case_kinds=kinds, channel_kinds=hist, write_config_subsets_seen=len(wc_seen),
         exhaustive='all 16 write_config subsets in at least two sessions per run',
         max_hits=maxhits, max_time=maxtime, cases_with_non_ascii_names=nonascii,
         explicit_sessions_under_ascii_locale=sum(1 for c in cases if c.get('ascii_locale')),
-        roundtrips_checked=sum(len(o.get('loaded', [])) for o in outs),
+        roundtrips_checked=sum(len(o.get('loaded', [])) for o in outs) + sum(1 for o in outs for st in o.get('history', []) if st['op'] == 'dump'),
+        history_steps={k: sum(1 for o in outs for st in o.get('history', []) if st['op'] == k) for k in ('run', 'dump', 'foreign', 'delete', 'load')},
+        redumps_after_someone_else_wrote=sum(count_redumps(c) for c in cases if c['kind'] == 'history'),
         hypothesis_load_dump_measured_on=sum(len(o.get('loaded', [])) for o in outs),
         hypothesis_parse_render_measured_on=n_obs,
         samples=samples,
